@@ -95,6 +95,61 @@ def run(chk):
             done = int(i.split('done=')[1])
             if sum(arr) + sum(pend) != done:
                 chk.violation('count_conserved', {'line': line}, i, 'array sum + pending == completed items', input_class='batching')
+    # the handler's loop and the caller's side of the completion handshake: the library's own _progress_bar_handler, real
+    # WorkerComms flags and the real tqdm class against a script, vs Mpire.BarHandshake
+    from harness.pure import barshake
+    cases = [barshake.gen(rng) for _ in range(400 if chk.tier == 'quick' else 6000)]
+    hl = ['hshake total=%s ops=%s' % ('-' if t is None else t, ','.join(ops)) for t, ops in cases]
+    hm = drv.run(hl)
+    for (tot, ops), line, m in zip(cases, hl, hm):
+        try:
+            i = barshake.run(tot, ops)
+        except Exception as e:      # noqa
+            i = 'error %s: %s' % (type(e).__name__, e)
+        late = tot is None and any(o[0] == 'S' for o in ops)
+        chk.count('_progress_bar_handler (scripted) vs Mpire.BarHandshake', key=line, nontrivial=ops.count('p') >= 3 and any(o[0] == 'A' for o in ops),
+                  sample={'line': line, 'impl': i}, total='late' if late else 'known' if tot is not None else 'never', end=ops[-2], passes=min(ops.count('p'), 6))
+        if i == m:
+            continue
+        chk.mismatch('progress bar handshake vs Mpire.BarHandshake', {'line': line}, i, m)
+        if not i.startswith('ok '):
+            chk.violation('handshake', {'line': line, 'total': tot, 'ops': ops}, i, 'the handler loop runs the script to its end', input_class='handshake_error')
+            continue
+        # the property itself, on what the real handler did
+        states = [tuple(x.split('/')) for x in i[3:].split(' go=')[0].split(';')]
+        go = i.endswith('go=1')
+        arr, total_now, pending_total, k, prev_n, flagged = 0, tot, None, 0, 0, False
+        for o in ops:
+            if o[0] == 'A':
+                arr += int(o[1:])
+            elif o[0] == 'S':
+                pending_total = int(o[1:])
+            elif o in 'XEK':
+                flagged = True
+            elif o == 'p':
+                n, bt, comp, _ex = states[k]
+                k += 1
+                n = int(n)
+                ready = (not flagged) and ((pending_total if pending_total is not None else total_now) == arr)
+                if pending_total is not None and not flagged:
+                    total_now, pending_total = pending_total, None
+                if n < prev_n or n > arr:
+                    chk.violation('displayed_monotone', {'line': line, 'total': tot, 'ops': ops}, i, 'displayed count never decreases nor exceeds the items reported',
+                                  input_class='handshake_count')
+                    break
+                if comp == '1' and bt != str(n) and not any(s[2] == '1' for s in states[:k - 1]):
+                    chk.violation('complete_only_at_total', {'line': line, 'total': tot, 'ops': ops}, i, 'completion is signalled only with count == total',
+                                  input_class='handshake_complete')
+                    break
+                if ready and comp != '1':
+                    chk.violation('completes_in_one_pass', {'line': line, 'total': tot, 'ops': ops}, i,
+                                  'all items reported and the total known: the next pass of the handler signals completion (else the caller waits for ever)',
+                                  input_class='handshake_stuck')
+                    break
+                prev_n = n
+        else:
+            if go and 'E' not in ops and not (states[-1][2] == '1'):
+                chk.violation('caller_goes_on_only_at_total', {'line': line, 'total': tot, 'ops': ops}, i, 'the caller goes on only when the bar is complete', input_class='handshake_go')
     scs = bar_scenarios(rng, 250 if chk.tier == 'quick' else 4000)
     run_scenarios(chk, 'whole calls with the real ProgressBarHandler and tqdm under DetSim', scs, {'C19', 'C01', 'C03'},
                   nontrivial=lambda sc, o: any(len(x.get('bar') or []) >= 2 for x in o.get('ops', [])),
